@@ -35,10 +35,14 @@ def tadpole_value(nu, m, D):
 def run(ctx):
     rng = ctx.rng
     # ---- (i) end-to-end correspondence
-    ss = S.generate(ctx, 16 if ctx.quick else 150, 3 if ctx.quick else 5, max_e=6 if ctx.quick else 8, max_loops=3 if ctx.quick else 5,
-                    routings_per_graph=2)
+    ss = S.generate(ctx, 16 if ctx.quick else 150, 4 if ctx.quick else 8, max_e=6 if ctx.quick else 8, max_loops=3 if ctx.quick else 5,
+                    routings_per_graph=2, kinds=("uniform", "corner", "tiny_xi", "edge1"))
+    # multi-loop graphs at strongly hierarchical points (sub-graphs with small degree of divergence make the parameters span many decades)
+    ss += S.generate(ctx, 6 if ctx.quick else 40, 6, max_e=5, max_loops=3, routings_per_graph=1, kinds=("corner", "corner", "tiny_xi"),
+                     names=["sunrise", "banana4", "double_triangle", "bubble_chain", "kite"])
     S.run(ss)
     SC.corr_sample(ctx, ss)
+    SC.generic_scalar_guard(ctx, ss[:: 7], k=8)
     for s in ss:
         c, r, a = s["case"], s["routing"], s["impl"]
         ctx.case([s["req"]["x"], c["edges"], c["weights"], c["D"], r["sig"], s["req"]["edge_data"]],
@@ -46,6 +50,18 @@ def run(ctx):
         ctx.count(f"e2e.L={r['L']}"); ctx.count(f"e2e.status.{a.get('status')}")
         if a.get("status") == "panic":
             ctx.violation("sample panicked", S.small_req(s), observed=a)
+        if a.get("status") == "zerodet":
+            # a rejected point is dropped from the Monte Carlo mean: legitimate only if the L matrix really is (numerically) singular
+            xb = (a.get("log") or {}).get("momtrop_feynman_parameter")
+            if xb and SC.finite(xb):
+                xq = SC.fr_list(xb)
+                if all(t > 0 for t in xq):
+                    ex = SC.exact_quantities(s, xq)
+                    if ex is not None and ex["det"] > 0 and float(ex["det"]) > 1e-280 and ex["cond_s"] < 10 ** 9:
+                        ctx.count("e2e.zerodet_on_regular_matrix")
+                        ctx.violation(f"the sample is rejected with ZeroDet although its L matrix is regular: exact det {float(ex['det']):.3e}, condition number of "
+                                      f"the scaled matrix {float(ex['cond_s']):.2e}; rejected points bias the estimator", S.small_req(s),
+                                      expected="a sample", observed="MatrixError(ZeroDet)")
     # ---- (i') the inverse-CDF step of the derivation: the Gamma variate of a sample satisfies P(dod, lambda) = coordinate 2E-2
     # (what makes lambda Gamma(dod)-distributed); general samplers plus samplers whose dod is close to, but not, 1
     from mpmath import mp, mpf, gammainc
